@@ -1,7 +1,17 @@
 (* C09 part (a): the context-aware I/O helpers deliver exact prefixes, for every reader / writer / context script. *)
 From Coq Require Import List ZArith Bool Lia.
 Import ListNotations.
-From GU Require Import C09.Model.
+From GU Require Import C09.IR C09.Gen C09.Model.
+
+(* the generated facts this file depends on, reduced to their values (each [change] fails to convert when a fact changes) *)
+Ltac norm_gen :=
+  change (copy_ctx_test_first gen_safeio) with true in *; change (copy_src_wrapped gen_safeio) with true in *;
+  change (copy_dst_wrapped gen_safeio) with true in *; change (safecopy_converts gen_safeio) with true in *;
+  change (copyn_is_iocopyn_same_n gen_safeio) with true in *; change (ram_src_wrapped gen_safeio) with true in *;
+  change (ram_converts gen_safeio) with true in *; change (ram_empty_rule gen_safeio) with true in *;
+  change (ram_content_set_after_error_return gen_safeio) with true in *; change (ram_ctx_test_before_alloc gen_safeio) with true in *;
+  unfold converted in *.
+
 Local Open Scope Z_scope.
 
 (* the state of a running loop: nothing lost so far *)
@@ -35,9 +45,9 @@ Proof. intros H. rewrite firstn_length_le; lia. Qed.
 (* one iteration keeps the invariant *)
 Lemma step_good rf ck r src0 s :
   good src0 s -> s_ctx s = false ->
-  match snd (step rf ck r s) with
-  | Continue => good src0 (fst (step rf ck r s))
-  | Done _ => fin src0 (fst (step rf ck r s))
+  match snd (step rf true ck r s) with
+  | Continue => good src0 (fst (step rf true ck r s))
+  | Done _ => fin src0 (fst (step rf true ck r s))
   end.
 Proof.
   intros (A & B & C) Hc. unfold step.
@@ -87,25 +97,25 @@ Proof.
     destruct (rd_err r); simpl; try exact G; apply good_fin; exact G.
 Qed.
 
-Lemma guard_none_ctx cf ck s : guard cf ck s = None -> s_ctx s = false.
-Proof. unfold guard. destruct cf, (s_ctx s), (lim_done (s_lim s)); congruence. Qed.
+Lemma guard_none_ctx cf ck s : guard cf true ck s = None -> s_ctx s = false.
+Proof. unfold guard. destruct cf, (s_ctx s), (lim_done (s_lim s)); simpl; congruence. Qed.
 
-Lemma loop_fin rf cf ck src0 : forall rs s, good src0 s -> fin src0 (o_st (loop rf cf ck rs s)).
+Lemma loop_fin rf cf ck src0 : forall rs s, good src0 s -> fin src0 (o_st (loop rf cf true true ck rs s)).
 Proof.
   induction rs as [|r rs IH]; intros s G; simpl.
-  - destruct (guard cf ck s) eqn:Eg; simpl; [now apply good_fin|].
+  - destruct (guard cf true ck s) eqn:Eg; simpl; [now apply good_fin|].
     destruct G as (A & B & C). repeat split; simpl; eauto.
     rewrite reads_ok_app, C, (guard_none_ctx _ _ _ Eg). reflexivity.
-  - destruct (guard cf ck s) eqn:Eg; simpl; [now apply good_fin|].
+  - destruct (guard cf true ck s) eqn:Eg; simpl; [now apply good_fin|].
     pose proof (step_good rf ck r src0 s G (guard_none_ctx _ _ _ Eg)) as H.
-    destruct (step rf ck r s) as [s' o]. simpl in H. destruct o; simpl; [apply IH; exact H | exact H].
+    destruct (step rf true ck r s) as [s' o]. simpl in H. destruct o; simpl; [apply IH; exact H | exact H].
 Qed.
 
 (* ---- the limit reader ---- *)
 Definition lim_inv (N : Z) (s : st) : Prop :=
   match s_lim s with Some m => 0 <= m /\ s_written s + m <= N | None => False end.
 
-Lemma step_lim rf ck r N s : lim_inv N s -> lim_inv N (fst (step rf ck r s)).
+Lemma step_lim rf ck r N s : lim_inv N s -> lim_inv N (fst (step rf true ck r s)).
 Proof.
   unfold lim_inv, step. destruct (s_lim s) as [m|] eqn:El.
   2:{ intros []. }
@@ -121,12 +131,12 @@ Proof.
   - rewrite after_err_st. simpl. lia.
 Qed.
 
-Lemma loop_lim rf cf ck N : forall rs s, lim_inv N s -> lim_inv N (o_st (loop rf cf ck rs s)).
+Lemma loop_lim rf cf ck N : forall rs s, lim_inv N s -> lim_inv N (o_st (loop rf cf true true ck rs s)).
 Proof.
   induction rs as [|r rs IH]; intros s H; simpl.
-  - destruct (guard cf ck s); simpl; exact H.
-  - destruct (guard cf ck s); simpl; [exact H|].
-    pose proof (step_lim rf ck r N s H) as H'. destruct (step rf ck r s) as [s' o]. simpl in H'.
+  - destruct (guard cf true ck s); simpl; exact H.
+  - destruct (guard cf true ck s); simpl; [exact H|].
+    pose proof (step_lim rf ck r N s H) as H'. destruct (step rf true ck r s) as [s' o]. simpl in H'.
     destruct o; simpl; [apply IH; exact H' | exact H'].
 Qed.
 
@@ -165,8 +175,8 @@ Lemma copy_n_exact rf ck n src rs ws :
 Proof.
   intros Hn. unfold copy_n. simpl.
   destruct (loop_fin rf false ck src rs _ (init_good (Some n) src ws)) as ((rest & P) & W & T).
-  assert (L : lim_inv n (o_st (loop rf false ck rs (init (Some n) src ws)))) by (apply loop_lim; unfold lim_inv; simpl; lia).
-  set (o := loop rf false ck rs (init (Some n) src ws)) in *.
+  assert (L : lim_inv n (o_st (loop rf false true true ck rs (init (Some n) src ws)))) by (apply loop_lim; unfold lim_inv; simpl; lia).
+  set (o := loop rf false true true ck rs (init (Some n) src ws)) in *.
   assert (Hle : s_written (o_st o) <= n).
   { unfold lim_inv in L. destruct (s_lim (o_st o)); [lia|destruct L]. }
   split; [destruct (_ =? n) eqn:E; lia|].
@@ -180,19 +190,23 @@ Qed.
 Lemma prefix_nil l : prefix_of [] l.
 Proof. exists l. reflexivity. Qed.
 
+(* the limit reader of the generated ReadAtMost: `max >= 0` selects io.LimitReader(src, max) *)
+Lemma limit_of_generated max : limit_of gen_safeio max = if max <? 0 then None else Some max.
+Proof. unfold limit_of. cbn. destruct (0 <=? max) eqn:A, (max <? 0) eqn:B; try reflexivity; lia. Qed.
+
 Lemma read_at_most_sound pre ck max src rs :
   let r := read_at_most pre ck max src rs in
   prefix_of (r_bytes r) src /\ reads_ok (r_tr r) = true /\ r_count r = Z.of_nat (length (r_bytes r)) /\
   (0 <= max -> Z.of_nat (length (r_bytes r)) <= max).
 Proof.
-  unfold read_at_most. destruct pre; simpl; [repeat split; try apply prefix_nil; simpl; lia|].
+  unfold read_at_most. norm_gen. rewrite limit_of_generated. destruct pre; simpl; [repeat split; try apply prefix_nil; simpl; lia|].
   set (lim := if max <? 0 then None else Some max).
   destruct (loop_fin true true ck src rs _ (init_good lim src [])) as (P & W & T).
-  assert (Hmax : 0 <= max -> s_written (o_st (loop true true ck rs (init lim src []))) <= max).
+  assert (Hmax : 0 <= max -> s_written (o_st (loop true true true true ck rs (init lim src []))) <= max).
   { intros H. assert (lim = Some max) as -> by (unfold lim; destruct (max <? 0) eqn:E; [lia|reflexivity]).
-    assert (L : lim_inv max (o_st (loop true true ck rs (init (Some max) src [])))) by (apply loop_lim; unfold lim_inv; simpl; lia).
+    assert (L : lim_inv max (o_st (loop true true true true ck rs (init (Some max) src [])))) by (apply loop_lim; unfold lim_inv; simpl; lia).
     unfold lim_inv in L. destruct (s_lim _); [lia|destruct L]. }
-  set (o := loop true true ck rs (init lim src [])) in *.
+  set (o := loop true true true true ck rs (init lim src [])) in *.
   destruct (o_kind o); simpl; try (repeat split; try apply prefix_nil; simpl; auto; lia).
   destruct (s_written (o_st o) =? 0); simpl; repeat split; try apply prefix_nil; simpl; auto; lia.
 Qed.
@@ -229,7 +243,7 @@ Qed.
 Lemma step_plain rf ck r s :
   plain_rd r = true -> s_ctx s = false -> s_ws s = [] ->
   let n := clamp (s_lim s) (Z.of_nat (length (s_src s))) (rd_n r) in
-  exists s', step rf ck r s = (s', Continue) /\ s_written s' = s_written s + n /\
+  exists s', step rf true ck r s = (s', Continue) /\ s_written s' = s_written s + n /\
              s_src s' = skipn (Z.to_nat n) (s_src s) /\ s_lim s' = lim_dec (s_lim s) n /\
              s_ctx s' = false /\ s_ws s' = [].
 Proof.
@@ -253,7 +267,7 @@ Definition take_of (s : st) (rs : list rd) : Z :=
 
 Lemma loop_plain rf cf ck : forall rs s,
   plain rs = true -> s_ctx s = false -> s_ws s = [] -> lim_nonneg s ->
-  let o := loop rf cf ck rs s in
+  let o := loop rf cf true true ck rs s in
   s_written (o_st o) = s_written s + take_of s rs /\ o_kind o = KNil.
 Proof.
   induction rs as [|r rs IH]; intros s Hp Hc Hw Hl; simpl.
@@ -263,7 +277,7 @@ Proof.
   - simpl in Hp. apply andb_true_iff in Hp as [Hr Hp].
     pose proof (total_nonneg rs Hp) as Ht.
     assert (Hrn : 0 <= rd_n r) by (unfold plain_rd in Hr; apply andb_true_iff in Hr as [Hr _]; apply andb_true_iff in Hr as [Hr _]; lia).
-    destruct (guard cf ck s) eqn:Eg.
+    destruct (guard cf true ck s) eqn:Eg.
     + (* the limit is exhausted *)
       unfold guard in Eg. rewrite Hc in Eg. unfold take_of, lim_nonneg in *.
       destruct (s_lim s) as [m|]; simpl in Eg; [|destruct cf; discriminate].
@@ -284,7 +298,7 @@ Qed.
 
 Lemma loop_plain_bytes rf cf ck lim src rs :
   plain rs = true -> (match lim with Some m => 0 <= m | None => True end) ->
-  let o := loop rf cf ck rs (init lim src []) in
+  let o := loop rf cf true true ck rs (init lim src []) in
   let avail := Z.min (total rs) (Z.of_nat (length src)) in
   let take := match lim with Some m => Z.min m avail | None => avail end in
   s_dl (o_st o) = firstn (Z.to_nat take) src /\ s_written (o_st o) = take /\ o_kind o = KNil.
@@ -304,7 +318,7 @@ Lemma read_at_most_exact_l max src rs :
   let r := read_at_most None KCancelled max src rs in
   r_bytes r = firstn (Z.to_nat want) src /\ r_kind r = (if want =? 0 then KEmpty else KNil).
 Proof.
-  intros Hp. cbv zeta. unfold read_at_most.
+  intros Hp. cbv zeta. unfold read_at_most. norm_gen. rewrite limit_of_generated. cbv zeta.
   assert (Hl : match (if max <? 0 then None else Some max) with Some m => 0 <= m | None => True end)
     by (destruct (max <? 0) eqn:E; [exact I|lia]).
   destruct (loop_plain_bytes true true KCancelled _ src rs Hp Hl) as (B & W & K).
@@ -325,7 +339,7 @@ Lemma copy_n_plain_l rf n src rs :
   let r := copy_n rf None KCancelled n src rs [] in
   r_bytes r = firstn (Z.to_nat (Z.min n avail)) src /\ r_kind r = (if n <=? avail then KNil else KEOF).
 Proof.
-  intros Hn Hp. cbv zeta. unfold copy_n.
+  intros Hn Hp. cbv zeta. unfold copy_n. norm_gen. cbv zeta.
   destruct (loop_plain_bytes rf false KCancelled (Some n) src rs Hp Hn) as (B & W & K).
   simpl. rewrite K, W. split; [exact B|].
   pose proof (total_nonneg rs Hp).
